@@ -152,3 +152,52 @@ func runEmptyNetworks(s *core.Shard, offset int) {
 		}
 	}
 }
+
+// An external resource declared without name by an included file and made a project resource again
+// by a later layer of the including project (`external: false`, `external: !reset null`): it is
+// then neither external nor named, so it is called `<project>_<key>` like any other.
+func runUnexternalised(s *core.Shard, offset int) {
+	for i, how := range []string{"external: false", "external: !reset null"} {
+		for j, carrier := range []string{"override-file", "later-document"} {
+			if !s.Mine(offset + 2*i + j) {
+				continue
+			}
+			id := fmt.Sprintf("unexternalised/%d/%s", i, carrier)
+			if !s.Begin(id) {
+				continue
+			}
+			inc := "networks:\n  proxy: {external: true}\nvolumes:\n  data: {external: true}\n"
+			main := "include:\n  - inc/compose.yaml\nservices:\n  s:\n    image: img\n    networks: [proxy]\n    volumes: [\"data:/d\"]\n"
+			later := "networks:\n  proxy:\n    " + how + "\nvolumes:\n  data:\n    " + how + "\n"
+			imp := &ld.Case{Files: map[string]string{"inc/compose.yaml": inc}, ComposeFiles: []string{"compose.yaml"}}
+			if carrier == "override-file" {
+				imp.Files["compose.yaml"] = main
+				imp.Files["override.yaml"] = later
+				imp.ComposeFiles = []string{"compose.yaml", "override.yaml"}
+			} else {
+				imp.Files["compose.yaml"] = main + "---\n" + later
+			}
+			exp := &ld.Case{Files: map[string]string{"compose.yaml": "services:\n  s:\n    image: img\n    networks: [proxy]\n    volumes: [\"data:/d\"]\nnetworks:\n  proxy: {name: verif_proxy}\nvolumes:\n  data: {name: verif_data}\n"}, ComposeFiles: []string{"compose.yaml"}}
+			_, ri := ld.Run(s.Scratch(), imp)
+			_, re := ld.Run(s.Scratch(), exp)
+			s.Eval(2)
+			files := map[string]any{"case.json": replayCase{Kind: "names", Implicit: imp, Variant: exp, Rule: "resource.name", Origin: id}}
+			if ri.Panic != nil || re.Panic != nil || re.Err != nil {
+				s.Inconclusive("unexternalised: explicit side does not load")
+				continue
+			}
+			s.Cover("resource-name-scenario", id)
+			s.Nontrivial("names", id)
+			if ri.Err != nil {
+				s.Violation(map[string]string{"kind": "names-load-failed", "origin": id}, fmt.Sprintf("%s does not load: %v", id, ri.Err), files)
+				continue
+			}
+			o := diff.Default()
+			o.IgnoreField["ComposeFiles"] = true
+			if d := diff.Compare(ri.Project, re.Project, o); d != "" {
+				s.Violation(map[string]string{"kind": "implicit-vs-explicit", "rule": "resource.name", "origin": id, "field": diff.PathOf(d)},
+					fmt.Sprintf("%s: a resource that an included file declared external and a later layer made a project resource again is not named `<project>_<key>`: %s", id, d), files)
+			}
+		}
+	}
+}
